@@ -49,7 +49,7 @@ func (check) Cases(tier string) int {
 }
 
 func (check) Rule() string {
-	return "one sequence per case: 65% key=value flag (1-10 arguments over the keys a,b,c,l,a.b,a.c,l.0,l.1,l.0.k,c.0.b, a previous key reused w.p. 1/2, an identical earlier argument string repeated w.p. 1/6; values in every parse.Value syntax: uint/int/float/hex, bool words, null, bare words, single and double quoted, comma lists, [..] lists, {..} objects, nested, padded, trailing commas; empty value; bare key; malformed arguments (table + truncations of valid values) at a random position and w.p. 1/4 after it; autoBool off in 15% so that a bare key is the flag's own malformed form; 15% driven through a real flag.FlagSet/ConfigVar), 20% file flag (1-5 temp files .yaml/.yml/.json/.hjson holding JSON renderings of correlated dict trees, every argument after the first names an earlier path again w.p. 1/3, half of the sequences put a differing non-empty list under one key shared by all documents; 1 in 4 sequences spell members of top-level dictionaries as dotted keys; a missing file / unknown extension / truncated document / scalar document as the failing argument), 15% cfgutil.Collector directly (Add(cfg,nil)/Add(nil,nil)/Add(nil,err) histories, GetOptions). Option sets: PathSep(\".\") +- one of {ReplaceValues, ReplaceArrValues, AppendValues, PrependValues} +- VarExp (6% of key=value cases, never with ReplaceValues; primitive-valued references to keys of the initial config only; half of them with a Resolve option that alone knows ${ext}); initial config nil or a small dictionary. After EVERY Set/Add the config is read back and compared. Non-trivial = at least two accepted settings before the first failure whose keys are equal or one a path prefix of the other (files/collector: share a top-level key or both carry a list); distinct = distinct (mode, option set, autoBool, initial config, argument texts)."
+	return "one sequence per case: 65% key=value flag (1-10 arguments over the keys a,b,c,l,a.b,a.c,l.0,l.1,l.0.k,c.0.b, a previous key reused w.p. 1/2, an identical earlier argument string repeated w.p. 1/6; 1 in 14 arguments has its '=' in an odd place (empty key \"=v\", \"=\", \"==x\", \"=a=b\", key==x, the empty argument), for both autoBool settings; values in every parse.Value syntax: uint/int/float/hex, bool words, null, bare words, single and double quoted, comma lists, [..] lists, {..} objects, nested, padded, trailing commas; empty value; bare key; malformed arguments (table + truncations of valid values) at a random position and w.p. 1/4 after it; autoBool off in 15% so that a bare key is the flag's own malformed form; 15% driven through a real flag.FlagSet/ConfigVar), 20% file flag (1-5 temp files .yaml/.yml/.json/.hjson holding JSON renderings of correlated dict trees, every argument after the first names an earlier path again w.p. 1/3, half of the sequences put a differing non-empty list under one key shared by all documents; 1 in 4 sequences spell members of top-level dictionaries as dotted keys; a missing file / unknown extension / truncated document / scalar document as the failing argument), 15% cfgutil.Collector directly (Add(cfg,nil)/Add(nil,nil)/Add(nil,err) histories, GetOptions). Option sets: PathSep(\".\") +- one of {ReplaceValues, ReplaceArrValues, AppendValues, PrependValues} +- VarExp (6% of key=value cases, never with ReplaceValues; primitive-valued references to keys of the initial config only; half of them with a Resolve option that alone knows ${ext}; 1 in 4 arguments there is a reference to the keys u/w or sets u/w, so that a reference may precede its target and the config is unreadable in between); initial config nil or a small dictionary. After EVERY Set/Add the config is read back and compared. Before every argument of the two flags (and after the last) w.p. 1/3 one or two read-only calls (String, Config, Get, Error) are interleaved; a read must change neither the config nor Error(). Non-trivial = at least two accepted settings before the first failure whose keys are equal or one a path prefix of the other (files/collector: share a top-level key or both carry a list); distinct = distinct (mode, option set, autoBool, initial config, argument texts)."
 }
 
 func (check) Assumptions() []string {
@@ -357,6 +357,19 @@ type kvArg struct {
 	syntax string
 }
 
+// where the '=' sits: everything after an (often empty) key. The argument is
+// split at its FIRST '=': "=v" is the empty key with value v, "=" an empty key
+// with an empty value (ignored), "==x" the empty key with value "=x".
+var equalsRests = []string{"=", "=v", "==x", "=a=b", "=1", "= ", "=[1,2]", "=k=", "==", "=a.b=c", "={x: 1}", "='='", "=true"}
+
+// keys that only ever receive plain scalars and are the targets of references
+// written BEFORE they exist (VarExp): the config is unreadable in between
+var lateKeys = []string{"u", "w"}
+var lateRefs = []string{"${u}", "${w}", `"x-${u}"`, "${u}${w}"}
+var lateVals = []string{"1", "abc", "'s t'", "true", "2.5", `"d q"`}
+
+func isLateKey(k string) bool { return k == "u" || k == "w" }
+
 func genArgs(r *rand.Rand, varexp int) []kvArg {
 	n := 1 + r.Intn(10)
 	failAt := -1
@@ -376,13 +389,43 @@ func genArgs(r *rand.Rand, varexp int) []kvArg {
 			// the identical argument string once more (adjacent or not): it must
 			// be merged once per occurrence
 			if c := out[r.Intn(len(out))]; c.intent != "malformed" {
-				used[len(used)-1] = c.text
+				ck := c.text
 				if j := strings.Index(c.text, "="); j >= 0 {
-					used[len(used)-1] = c.text[:j]
+					ck = c.text[:j]
+				}
+				if ck == "" || isLateKey(ck) {
+					used = used[:len(used)-1]
+				} else {
+					used[len(used)-1] = ck
 				}
 				out = append(out, c)
 				continue
 			}
+		}
+		if !bad && varexp > 0 && r.Intn(4) == 0 {
+			// a reference to a key that is set later (or never), or that key
+			used = used[:len(used)-1]
+			if r.Intn(2) == 0 {
+				out = append(out, kvArg{key + "=" + pick(r, lateRefs), "value", "reference-late"})
+			} else {
+				out = append(out, kvArg{pick(r, lateKeys) + "=" + pick(r, lateVals), "value", "late-target"})
+			}
+			continue
+		}
+		if !bad && r.Intn(14) == 0 {
+			// '=' at position 0 (empty key), several '=' in a row, '=' last
+			used = used[:len(used)-1]
+			kp, tag := "", "emptykey"
+			if r.Intn(3) == 0 {
+				kp, tag = key, "key"
+			}
+			if r.Intn(12) == 0 {
+				out = append(out, kvArg{"", "equals-shape", "eq:empty-argument"})
+				continue
+			}
+			rest := pick(r, equalsRests)
+			out = append(out, kvArg{kp + rest, "equals-shape", "eq:" + tag + ":" + rest})
+			continue
 		}
 		switch k := r.Intn(100); {
 		case bad:
@@ -770,6 +813,9 @@ func (mo *monitor) step(i int, arg, kind string, ret error, retIdentity bool, cf
 	case st.os.pol != model.PDefault && st.canonNoErr == nil && got == st.canonNo && got != st.canon && (!haveM || got == wantMNo):
 		// observed == sequential merges WITHOUT the options != with the options
 		res.Violate("collector-drops-options:merge-policy", "policy %v ignored while accumulating: %s", st.os.pol, detail)
+	case strings.HasPrefix(arg, "=") && got != st.canon:
+		// '=' is the first character: the key is empty, the rest is the value
+		res.Violate("empty-key-argument-mishandled", "%s", detail)
 	case kind == "ignored" && mo.havePrev && got != mo.prevGot:
 		res.Violate("empty-value-not-ignored", "%s", detail)
 	case kind == "bare" && got != st.canon:
@@ -780,6 +826,80 @@ func (mo *monitor) step(i int, arg, kind string, ret error, retIdentity bool, cf
 		// the library agrees with its own NewFrom/Merge but not with the model
 		res.Violate("accumulation-mismatch:model-only", "%s", detail)
 	}
+}
+
+var readCalls = []string{"String", "Config", "Get", "Error"}
+
+// genReads draws the read-only calls made before argument i (slot n: after the
+// last one): w.p. 1/3 one or two of String(), Config(), Get(), Error().
+func genReads(r *rand.Rand, n int) [][]string {
+	out := make([][]string, n+1)
+	for i := range out {
+		if r.Intn(3) == 0 {
+			for c := 1 + r.Intn(2); c > 0; c-- {
+				out[i] = append(out[i], pick(r, readCalls))
+			}
+		}
+	}
+	return out
+}
+
+func descReads(sched [][]string) string {
+	var l []string
+	for i, c := range sched {
+		if len(c) > 0 {
+			l = append(l, fmt.Sprintf("%d:%s", i, strings.Join(c, "+")))
+		}
+	}
+	return "reads-before-argument={" + strings.Join(l, " ") + "}"
+}
+
+// reads performs the read-only calls scheduled before argument i. The
+// statement speaks of the sequence of Set calls alone: a read in between must
+// neither change the config nor make the collector report an error. Returns
+// false when the case cannot be continued.
+func (mo *monitor) reads(calls []string, i int, fv *flag.FlagValue, cfg *ucfg.Config) bool {
+	res, st := mo.res, mo.st
+	for _, call := range calls {
+		errBefore := fv.Error()
+		gotBefore, gerrBefore := obs.Top(cfg, st.os.read()...)
+		out := ""
+		if p, pv, where := harness.Safe(func() {
+			switch call {
+			case "String":
+				out = fv.String()
+			case "Config":
+				_ = fv.Config()
+			case "Get":
+				_ = fv.Get()
+			default:
+				_ = fv.Error()
+			}
+		}); p {
+			res.Violate("panic:FlagValue."+call, "%s() before argument %d panics %q at %s; %s", call, i, pv, where, mo.desc())
+			return false
+		}
+		res.Eval(1)
+		res.Ev("reads_between_sets", 1)
+		res.SetAdd("read_call", call)
+		if gerrBefore != nil {
+			res.Ev("reads_of_unreadable_config", 1)
+			res.SetAdd("read_call_unreadable", call)
+		}
+		errAfter := fv.Error()
+		gotAfter, gerrAfter := obs.Top(cfg, st.os.read()...)
+		if !sameErr(errBefore, errAfter) {
+			res.Violate("read-between-sets-changes-outcome:"+call, "%s() called before argument %d returned %q and changed Error() from %v to %v: a later valid argument is now ignored although no argument failed (config then: %s, read error %v); %s",
+				call, i, out, errBefore, errAfter, gotBefore, gerrBefore, mo.desc())
+			return false
+		}
+		if (gerrBefore != nil) != (gerrAfter != nil) || gotBefore != gotAfter {
+			res.Violate("read-between-sets-changes-config:"+call, "%s() called before argument %d changed the config from %s (error %v) to %s (error %v); %s",
+				call, i, gotBefore, gerrBefore, gotAfter, gerrAfter, mo.desc())
+			return false
+		}
+	}
+	return true
 }
 
 // checkString compares String() with the JSON rendering of the config. It is
@@ -885,6 +1005,7 @@ func runKV(res *harness.R, r *rand.Rand, idx int, verbose bool) {
 		}
 	}
 	args := genArgs(r, ve)
+	sched := genReads(r, len(args))
 	mode := "kv"
 	if viaFlagSet {
 		mode = "kv-flagset"
@@ -898,7 +1019,7 @@ func runKV(res *harness.R, r *rand.Rand, idx int, verbose bool) {
 		if initTree != nil {
 			it = initTree.String()
 		}
-		return fmt.Sprintf("mode=%s options=%s autoBool=%v initial=%s args=[%s]", mode, os.name(), autoBool, it, strings.Join(l, " "))
+		return fmt.Sprintf("mode=%s options=%s autoBool=%v initial=%s args=[%s] %s", mode, os.name(), autoBool, it, strings.Join(l, " "), descReads(sched))
 	}
 	if idx < 2 {
 		res.Sample = desc()
@@ -942,6 +1063,9 @@ func runKV(res *harness.R, r *rand.Rand, idx int, verbose bool) {
 	var effective []string
 	seenAt := map[string]int{}
 	for i, a := range args {
+		if !mo.reads(sched[i], i, fv, cfgPtr) {
+			return
+		}
 		prevAt, repeated := seenAt[a.text]
 		seenAt[a.text] = i
 		before := ""
@@ -980,6 +1104,12 @@ func runKV(res *harness.R, r *rand.Rand, idx int, verbose bool) {
 			} else if kind == "value" {
 				res.SetAdd("syntax", a.syntax)
 			}
+			if a.intent == "equals-shape" {
+				res.SetAdd("equals_shape", fmt.Sprintf("%s->%s/autoBool=%v", a.syntax, kind, autoBool))
+				if strings.HasPrefix(a.text, "=") {
+					res.Ev("empty_key_args", 1)
+				}
+			}
 			if repeated && (kind == "value" || kind == "bare") {
 				shape := "adjacent"
 				if prevAt < i-1 {
@@ -1002,6 +1132,9 @@ func runKV(res *harness.R, r *rand.Rand, idx int, verbose bool) {
 			res.Violate("config-pointer-changed", "Config()/Get() no longer return the config handed out at creation after argument %d; %s", i, desc())
 			return
 		}
+	}
+	if !mo.reads(sched[len(args)], len(args), fv, cfgPtr) {
+		return
 	}
 	mo.checkString(fv, cfgPtr)
 	finish(res, mo, os, mode, effective, fmt.Sprintf("%s|%s|%v|%v|%s", mode, os.name(), autoBool, initTree, argTexts(args)))
@@ -1240,6 +1373,7 @@ func runFiles(res *harness.R, r *rand.Rand, idx int, verbose bool) {
 		}
 		files = append(files, f)
 	}
+	sched := genReads(r, len(seq))
 	mode := "files"
 	if viaFlagSet {
 		mode = "files-flagset"
@@ -1261,7 +1395,7 @@ func runFiles(res *harness.R, r *rand.Rand, idx int, verbose bool) {
 		for _, fi := range seq {
 			a = append(a, files[fi].name)
 		}
-		return fmt.Sprintf("mode=%s options=%s initial=%s args=[%s] files=[%s]", mode, os_.name(), it, strings.Join(a, " "), strings.Join(l, " "))
+		return fmt.Sprintf("mode=%s options=%s initial=%s args=[%s] %s files=[%s]", mode, os_.name(), it, strings.Join(a, " "), descReads(sched), strings.Join(l, " "))
 	}
 	if idx < 2 {
 		res.Sample = desc()
@@ -1311,6 +1445,9 @@ func runFiles(res *harness.R, r *rand.Rand, idx int, verbose bool) {
 	var effective []string
 	lastAt := map[int]int{}
 	for i, fi := range seq {
+		if !mo.reads(sched[i], i, fv, cfgPtr) {
+			return
+		}
 		f := files[fi]
 		path := filepath.Join(dir, f.name)
 		prevAt, repeated := lastAt[fi]
@@ -1361,6 +1498,9 @@ func runFiles(res *harness.R, r *rand.Rand, idx int, verbose bool) {
 			res.Violate("config-pointer-changed", "Config() no longer returns the config handed out at creation after file %d; %s", i, desc())
 			return
 		}
+	}
+	if !mo.reads(sched[len(seq)], len(seq), fv, cfgPtr) {
+		return
 	}
 	mo.checkString(fv, cfgPtr)
 	var k strings.Builder
